@@ -192,7 +192,7 @@ class C18(Check):
             per = ['set_pos', 'set_vel', 'vel_none', 'set_id', 'set_resid', 'set_name']
             return [['rederive']] + [[e, s] for s in ('orig', 'copy') for e in per]
         per = ['move', 'move_to', 'rotate', 'set_pos', 'set_pos_shared', 'set_vel', 'vel_none', 'set_ids',
-               'view_pos_index', 'view_vel_index', 'view_pos_iter']
+               'view_pos_index', 'view_vel_index', 'view_pos_iter', 'view_vel_inplace', 'view_pos_inplace']
         if kind == 'residue':
             per += ['set_resid', 'set_resname']
         else:
@@ -356,6 +356,22 @@ class C18(Check):
                     obj[i3].velocity = T['v'].copy()
                     mod.vel = list(mod.vel)
                     mod.vel[i3] = T['v'].copy()
+                elif name == 'view_vel_inplace':
+                    # augmented assignment through a live view: the view's own array is updated in place
+                    at = obj[i1]
+                    if at.velocity is not None:
+                        at.velocity += T['v']
+                        mod.vel = list(mod.vel)
+                        mod.vel[i1] = mod.vel[i1] + T['v']
+                elif name == 'view_pos_inplace':
+                    # (a no-op once the USER has handed one array object to both sides - set_pos_shared -: the
+                    # setter keeps row views of the caller's array, so an in-place update would then be the user
+                    # mutating an array he shares himself, which the statement does not cover)
+                    if not hasattr(st, 'shared'):
+                        at = obj[i2]
+                        at.position += T['d']
+                        mod.pos = mod.pos.copy()
+                        mod.pos[i2] = mod.pos[i2] + T['d']
                 elif name == 'view_pos_iter':
                     for j, at in enumerate(obj):
                         if j == i2:
